@@ -256,7 +256,7 @@ func runC04(r *core.Run) {
 			rankStrings(keys, res)
 			add(sql, "bucket:distinct:"+kind, cpu, map[string]interface{}{"kind": "distinct", "keys": keys, "res": cellsJSON(res)}, t.Rows)
 		case 1: // GROUP BY with aggregates
-			sql := "SELECT " + kcols + ", COUNT(*) AS c, COUNT(v) AS cv, SUM(v) AS s, MIN(v) AS mn, MAX(v) AS mx, AVG(v) AS av, COUNT(DISTINCT 1) AS c1, COUNT(DISTINCT v) AS cd, LISTAGG(id, ',') WITHIN GROUP (ORDER BY id) AS ids, ucnt(v) AS ua, unn(v) AS un, MEDIAN(v) AS md FROM t GROUP BY " + kcols
+			sql := "SELECT " + kcols + ", COUNT(*) AS c, COUNT(v) AS cv, SUM(v) AS s, MIN(v) AS mn, MAX(v) AS mx, AVG(v) AS av, COUNT(DISTINCT 1) AS c1, COUNT(DISTINCT v) AS cd, LISTAGG(id, ',') WITHIN GROUP (ORDER BY id) AS ids, ucnt(v) AS ua, unn(v) AS un, MEDIAN(v) AS md, LISTAGG(id, ',') WITHIN GROUP (ORDER BY id * -1, LEN(k1)) AS ids2 FROM t GROUP BY " + kcols
 			res, _, e := x.query(sql + ";")
 			if e != "" {
 				if !errRep[e] {
@@ -301,6 +301,16 @@ func runC04(r *core.Run) {
 					ids = append(ids, id)
 				}
 				sort.Ints(ids) // (under --strict-equal ORDER BY compares the ids as texts; the check is about membership)
+				ids2 := []int{}
+				for _, f := range strings.Split(row[nk+12].T, ",") {
+					id, e5 := strconv.Atoi(f)
+					if e5 != nil {
+						bad = "LISTAGG(id) ordered by an expression is not a list of integers: " + row[nk+12].T
+					}
+					ids2 = append(ids2, id)
+				}
+				sort.Ints(ids2)
+				g["ids2"] = ids2
 				ua, e6 := strconv.Atoi(row[nk+9].T)
 				un, e7 := strconv.Atoi(row[nk+10].T)
 				if e6 != nil || e7 != nil {
